@@ -222,6 +222,27 @@ def x_vcheck_sat(m, c, tag, k):
     _ob(m, 'witness', _boolarg(c), True, tag, k)
 
 
+def x_vcheck_deriv(m, f, df, var, tag, k, fd_estimate):
+    """obligation: df equals the formal derivative of f w.r.t. var ('r' or 'theta'; theta through sin_theta, cos_theta)"""
+    if m.mode == 'float':
+        _ob(m, 'eq', df, fd_estimate, tag, k)      # same observation as the native runtime: (df, finite-difference estimate)
+        return
+    v = m.cstr(var)
+    s_, c_ = sym('s_0_0', 'R'), sym('c_0_0', 'R')
+    wrt = {'r_0_0': Fraction(1)} if v == 'r' else {'theta_0_0': Fraction(1), 's_0_0': c_, 'c_0_0': mk('neg', s_)}
+    from .terms import diff
+    D = diff(f, wrt)
+    # Pythagorean identity for every sin/cos application that occurs
+    for t in reachable([x for x in (D, df) if isinstance(x, Term)]):
+        if t.op == 'uf' and t.args[0] in ('sin', 'cos'):
+            key = ('trig', t.args[1].id if isinstance(t.args[1], Term) else t.args[1])
+            if key not in m.known_sqrt:
+                m.known_sqrt.add(key)
+                sa, ca = Term('uf', ('sin', t.args[1])), Term('uf', ('cos', t.args[1]))
+                m.assume(mk_cmp('eq', mk('add', mk('mul', sa, sa), mk('mul', ca, ca)), Fraction(1)))
+    _ob(m, 'eq', df, D, tag, k)
+
+
 def x_vreach(m, tag):
     m.reached.add(m.cstr(tag))
 
@@ -302,8 +323,24 @@ def libm(name, fn):
                 return r
             return Fraction(v)
         # symbolic argument
+        if name == 'exp':
+            t = Term('uf', ('exp', a[0]))
+            if ('exp', t.id) not in m.known_sqrt:
+                m.known_sqrt.add(('exp', t.id))
+                m.assume(mk_cmp('gt', t, Fraction(0)))                         # exp > 0
+                nx = mk('neg', a[0]) if isinstance(a[0], Term) else None
+                other = Term._tab.get(('uf', ('exp', nx), 'R')) if nx is not None else None
+                if other is not None:
+                    m.assume(mk_cmp('eq', mk('mul', t, other), Fraction(1)))       # exp(x) exp(-x) = 1
+            return t
         if name == 'pow' and is_const(a[1]):
             e = Fraction(a[1])
+            if e.denominator == 1 and -16 <= e.numerator < 0:
+                r = Fraction(1)
+                for _ in range(-e.numerator):
+                    r = mk('mul', r, a[0])
+                m.divisors.append(r)
+                return mk('div', Fraction(1), r)
             if e.denominator == 1 and 0 <= e.numerator <= 16:
                 r = Fraction(1)
                 for _ in range(e.numerator):
@@ -649,7 +686,7 @@ def base_ext():
         '@vassume_le': x_vassume_le, '@vassume_lt': x_vassume_lt,
         '@vcheck_eq': x_vcheck_eq, '@vcheck_le': x_vcheck_le, '@vcheck_lt': x_vcheck_lt, '@vcheck_bits_eq': x_vcheck_bits_eq,
         '@vcheck_true': x_vcheck_true, '@vcheck_indep': x_vcheck_indep, '@vcheck_sat': x_vcheck_sat,
-        '@vreach': x_vreach, '@vout': x_vout, '@vout_int': x_vout_int, '@vis_symbolic': x_vis_symbolic, '@vset_threads': x_vset_threads,
+        '@vreach': x_vreach, '@vcheck_deriv': x_vcheck_deriv, '@vout': x_vout, '@vout_int': x_vout_int, '@vis_symbolic': x_vis_symbolic, '@vset_threads': x_vset_threads,
         '@llvm.fabs.f64': x_fabs, '@fabs': x_fabs, '@llvm.fmuladd.f64': x_fmuladd,
         '@llvm.floor.f64': x_floor, '@floor': x_floor, '@llvm.ceil.f64': x_ceil, '@ceil': x_ceil,
         '@llvm.minnum.f64': x_minmax('min'), '@llvm.maxnum.f64': x_minmax('max'), '@fmin': x_minmax('min'), '@fmax': x_minmax('max'),
